@@ -84,6 +84,7 @@ def run_cli(text, opts=(), timeout=60, fmt='-bl', extra_files=None, infile=None)
             res['exc'] = "%s: %s" % (type(e).__name__, e)
         finally:
             signal.alarm(0)
+        res['stdout'] = buf.getvalue()
         res['files'] = sorted(os.listdir(d))
         outs = [f for f in os.listdir(d) if 'optimized' in f]
         if outs:
